@@ -155,13 +155,14 @@ Section SuggestProofs.
   (* every version picked passed the level check against the current version and is not below it *)
   Lemma pick_allowed : forall l cur vs nr v,
     pick V cmp dif l cur vs nr = Some v ->
-    nr = Some v \/ (In v vs /\ allows l (dif v cur) = true /\ is_lt (cmp v cur) = false).
+    nr = Some v \/ (In v vs /\ allows l (dif v cur) = true /\ cmp v cur = Gt).
   Proof.
     induction vs as [|v0 vs IH]; intros nr v H; cbn [pick] in H.
     - left. exact H.
-    - destruct (below_new V cmp v0 nr || is_lt (cmp v0 cur)) eqn:EB.
+    - destruct (below_new V cmp v0 nr || negb (is_gt (cmp v0 cur))) eqn:EB.
       + destruct (IH _ _ H) as [E|[I A]]; [left; exact E|right; split; [right; exact I|exact A]].
-      + apply orb_false_iff in EB as [_ EC].
+      + apply orb_false_iff in EB as [_ EC]. apply negb_false_iff in EC.
+        assert (EC' : cmp v0 cur = Gt) by (destruct (cmp v0 cur); simpl in EC; congruence). clear EC. rename EC' into EC.
         destruct (allows l (dif v0 cur)) eqn:EA.
         * destruct (IH _ _ H) as [E|[I A]].
           -- inversion E; subst. right. split; [left; reflexivity|]. split; [exact EA|exact EC].
@@ -176,7 +177,7 @@ Section SuggestProofs.
   Lemma suggest_new_inv : forall verr l c vs v,
     suggest_maven_version V parses cmp dif verr l c vs = SNew v ->
     exists cur, current_of V parses cmp c vs = Some cur /\ allows l (dif v cur) = true /\
-                is_lt (cmp v cur) = false /\ In v vs /\ parses v = true.
+                cmp v cur = Gt /\ In v vs /\ parses v = true.
   Proof.
     intros verr l c vs v H. unfold suggest_maven_version in H.
     destruct verr; [discriminate|].
@@ -202,16 +203,25 @@ Section SuggestProofs.
     exists cur. auto.
   Qed.
 
+  Lemma suggest_strictly_up_lemma :
+    (forall a b, cmp b a = CompOpp (cmp a b)) ->
+    forall verr l c vs cur v,
+    current_of V parses cmp c vs = Some cur ->
+    suggest_maven_version V parses cmp dif verr l c vs = SNew v -> cmp cur v = Lt.
+  Proof.
+    intros Hanti verr l c vs cur v HC H.
+    destruct (suggest_new_inv _ _ _ _ _ H) as [cur' [A [_ [B _]]]].
+    rewrite HC in A. inversion A; subst cur'.
+    rewrite (Hanti v cur), B. reflexivity.
+  Qed.
+
   Lemma suggest_not_downgrade_lemma :
     (forall a b, cmp b a = CompOpp (cmp a b)) ->
     forall verr l c vs cur v,
     current_of V parses cmp c vs = Some cur ->
     suggest_maven_version V parses cmp dif verr l c vs = SNew v -> cmp cur v <> Gt.
   Proof.
-    intros Hanti verr l c vs cur v HC H.
-    destruct (suggest_new_inv _ _ _ _ _ H) as [cur' [A [_ [B _]]]].
-    rewrite HC in A. inversion A; subst cur'.
-    rewrite (Hanti v cur). destruct (cmp v cur); simpl in *; congruence.
+    intros Hanti verr l c vs cur v HC H. rewrite (suggest_strictly_up_lemma Hanti _ _ _ _ _ _ HC H). discriminate.
   Qed.
 
   Lemma suggest_no_panic_lemma : forall verr l c vs,
